@@ -370,9 +370,17 @@ func (p *PeerPool) getPeerAddr(nodeID string) string {
 	p.mu.RLock()
 	defer p.mu.RUnlock()
 
+	// An entry that is exactly the node ID always wins: every configured entry
+	// is itself a member's node ID, so "<id>:8081" may be a different node and
+	// the answer must not depend on the order of the list.
+	for _, peer := range p.peers {
+		if peer == nodeID {
+			return peer
+		}
+	}
 	for _, peer := range p.peers {
 		// Simple matching - in production you'd have better mapping
-		if peer == nodeID || peer == nodeID+":8081" {
+		if peer == nodeID+":8081" {
 			return peer
 		}
 	}
